@@ -60,11 +60,24 @@ PathOutcome(r) == IF r.arg = "unknown_first" THEN "exception"      \* E4 (named 
                   ELSE "ok"
 PathLines(r) == LET k == IF r.arg = "file" THEN 3 ELSE IF r.arg = "empty_file" THEN 0 ELSE 1 IN IF r.fasta THEN 2 * k ELSE k
 
-Reqs == {[cmd |-> "view", r |-> x] : x \in ViewReqs} \cup {[cmd |-> "sort", r |-> x] : x \in SortReqs}
+(* ---- stat, phase, realign: no option changes the outcome class; an input file that does not exist does ---- *)
+StatReqs == [gaf : {"records", "empty", "missing"}, cigar : BOOLEAN, out : BOOLEAN, gz : BOOLEAN]
+StatOutcome(r) == IF r.gaf = "missing" THEN "exception"         \* E6 (named deviation, all commands): a file name that does not exist
+                  ELSE "ok"                                     \* ends in FileNotFoundError, not in a message
+PhaseReqs == [gaf : {"records", "empty"}, tsv : {"rows", "empty", "missing"}, out : BOOLEAN]
+PhaseOutcome(r) == IF r.tsv = "missing" THEN "exception" ELSE "ok"       \* E6
+PhaseCount(r, n) == IF r.gaf = "empty" THEN 0 ELSE n.all
+RealignReqs == [gaf : {"records", "empty"}, cores : {"omitted", "1", "2"}, out : BOOLEAN, fasta : {"present", "missing"}]
+RealignOutcome(r) == IF r.fasta = "missing" THEN "exception" ELSE "ok"   \* E6
+RealignCount(r, n) == IF r.gaf = "empty" THEN 0 ELSE n.all
+
+Reqs == {[cmd |-> "stat", r |-> x] : x \in StatReqs} \cup {[cmd |-> "phase", r |-> x] : x \in PhaseReqs} \cup {[cmd |-> "realign", r |-> x] : x \in RealignReqs} \cup
+        {[cmd |-> "view", r |-> x] : x \in ViewReqs} \cup {[cmd |-> "sort", r |-> x] : x \in SortReqs}
         \cup {[cmd |-> "order_gfa", r |-> x] : x \in OrderReqs} \cup {[cmd |-> "index", r |-> x] : x \in IndexReqs}
         \cup {[cmd |-> "find_path", r |-> x] : x \in PathReqs}
 Outcome(q) == CASE q.cmd = "view" -> ViewOutcome(q.r) [] q.cmd = "sort" -> SortOutcome(q.r) [] q.cmd = "order_gfa" -> OrderOutcome(q.r)
                 [] q.cmd = "index" -> IndexOutcome(q.r) [] q.cmd = "find_path" -> PathOutcome(q.r)
+                [] q.cmd = "stat" -> StatOutcome(q.r) [] q.cmd = "phase" -> PhaseOutcome(q.r) [] q.cmd = "realign" -> RealignOutcome(q.r)
 
 VARIABLE req
 TInit == req \in Reqs
